@@ -41,6 +41,8 @@ type syntaxLoader struct {
 	ruleStack []*rhsRule
 
 	expandOpts *syntax.ExpandOptions
+
+	optInsts map[string]bool // names of the auto-instantiated optional nonterminals
 }
 
 func newSyntaxLoader(resolver *resolver, targetLang string, opts *grammar.Options, s *status.Status) *syntaxLoader {
@@ -65,6 +67,7 @@ func newSyntaxLoader(resolver *resolver, targetLang string, opts *grammar.Option
 		params:     make(map[string]int),
 		nonterms:   make(map[string]int),
 		cats:       make(map[string]int),
+		optInsts:   make(map[string]bool),
 		expandOpts: expandOpts,
 	}
 }
@@ -607,6 +610,7 @@ func (c *syntaxLoader) instantiateOpt(name string, origin ast.Symref) (int, bool
 	}
 
 	c.nonterms[name] = len(c.out.Nonterms)
+	c.optInsts[name] = true
 	index := c.resolver.NumTokens + len(c.out.Nonterms)
 	c.out.Nonterms = append(c.out.Nonterms, nt)
 	return index, true
@@ -877,7 +881,7 @@ func (c *syntaxLoader) convertPart(p ast.RhsPart, nonterm *syntax.Nonterm, under
 			// they'll be automatically filtered later on.
 			args.Names = make(map[string][]int)
 			for k, v := range rhs.names {
-				if !c.aliasOptSuffix && len(k) > len(c.optSuffix) && strings.HasSuffix(k, c.optSuffix) {
+				if !c.aliasOptSuffix && c.optInsts[k] && len(k) > len(c.optSuffix) && strings.HasSuffix(k, c.optSuffix) {
 					if _, exact := rhs.names[strings.TrimSuffix(k, c.optSuffix)]; exact {
 						// The rule also references the symbol without the suffix: that exact name wins
 						// (otherwise the map iteration order would decide what $name means).
